@@ -13,6 +13,7 @@ import (
 	"os"
 	"os/exec"
 	"path/filepath"
+	"regexp"
 	"strconv"
 	"strings"
 	"time"
@@ -24,6 +25,7 @@ type cliFlags struct {
 	preset     string
 	F, r       int
 	A          bool // -A: assemble and print the listings only
+	D          bool // -debug: the debug reporter's transcript precedes the result lines
 }
 
 type presetDoc struct{ dialect, m, l, p, c, d int }
@@ -37,6 +39,11 @@ var presetsDoc = map[string]presetDoc{
 }
 
 func (f cliFlags) args() []string {
+	if f.D {
+		g := f
+		g.D = false
+		return append([]string{"-debug"}, g.args()...)
+	}
 	if f.A {
 		g := f
 		g.A = false
@@ -166,10 +173,44 @@ func runCLI(bin, dir string, f cliFlags, progs []prog, r *rand.Rand, id int) str
 		return fmt.Sprintf(`{"ev":"cliA","flags":%s,"progs":[%s],"lists":[%s],"exit":%d,"timeout":%d,"stderr":%s,"raw":%s}`,
 			f.json(), strings.Join(ps, ","), strings.Join(lists, ","), exit, timedOut, jq(se.String()), jq(so.String()))
 	}
+	// -debug: the transcript of the debug reporter comes first.  Its lines are projected onto the scheduling skeleton
+	// ["cycle",n,0] ["spawn",w,a] ["exec",w,pc] ["wterm",w,pc]; every other transcript line (pushes, reads, writes, task
+	// terminations) is only counted.  Whatever is left over is handed to the result-line tokenizer below.
+	outText := so.String()
+	var dbg []string
+	other := 0
+	if f.D {
+		var rest []string
+		for _, l := range strings.Split(strings.TrimRight(outText, "\n"), "\n") {
+			if m := dbgCycleRe.FindStringSubmatch(l); m != nil {
+				dbg = append(dbg, fmt.Sprintf(`["cycle",%s,0]`, trimZeros(m[1])))
+			} else if m := dbgLineRe.FindStringSubmatch(l); m != nil {
+				kind := ""
+				switch {
+				case m[1] == "w" && m[4] == "Warrior Spawn":
+					kind = "spawn"
+				case m[1] == "W" && strings.HasPrefix(m[4], "Exec "):
+					kind = "exec"
+				case m[1] == "W" && m[4] == "Warrior Terminated":
+					kind = "wterm"
+				}
+				if kind != "" {
+					dbg = append(dbg, fmt.Sprintf(`[%q,%s,%s]`, kind, trimZeros(m[2]), trimZeros(m[3])))
+				} else {
+					other++
+				}
+			} else if dbgPushRe.MatchString(l) || l == "Simulator reset" {
+				other++
+			} else {
+				rest = append(rest, l)
+			}
+		}
+		outText = strings.Join(rest, "\n")
+	}
 	// generic tokenization of the result lines
 	var rows []string
 	parsed := 1
-	for _, l := range strings.Split(strings.TrimRight(so.String(), "\n"), "\n") {
+	for _, l := range strings.Split(strings.TrimRight(outText, "\n"), "\n") {
 		fl := strings.Fields(l)
 		var nums []int
 		for _, x := range fl {
@@ -185,8 +226,30 @@ func runCLI(bin, dir string, f cliFlags, progs []prog, r *rand.Rand, id int) str
 	for _, p := range progs {
 		ps = append(ps, p.json())
 	}
+	if f.D {
+		raw := so.String()
+		if len(raw) > 4000 {
+			raw = raw[:2000] + " ... " + raw[len(raw)-2000:]
+		}
+		return fmt.Sprintf(`{"ev":"cliD","flags":%s,"progs":[%s],"out":[%s],"log":[%s],"other":%d,"parsed":%d,"exit":%d,"timeout":%d,"stderr":%s,"raw":%s}`,
+			f.json(), strings.Join(ps, ","), strings.Join(rows, ","), strings.Join(dbg, ","), other, parsed, exit, timedOut, jq(se.String()), jq(raw))
+	}
 	return fmt.Sprintf(`{"ev":"cli","flags":%s,"progs":[%s],"out":[%s],"parsed":%d,"exit":%d,"timeout":%d,"stderr":%s,"raw":%s}`,
 		f.json(), strings.Join(ps, ","), strings.Join(rows, ","), parsed, exit, timedOut, jq(se.String()), jq(so.String()))
+}
+
+var (
+	dbgCycleRe = regexp.MustCompile(`^(\d+)$`)
+	dbgLineRe  = regexp.MustCompile(`^([wW])(\d+) (\d+): (.*)$`)
+	dbgPushRe  = regexp.MustCompile(`^W\d+: Task Push \d+$`)
+)
+
+func trimZeros(x string) string {
+	x = strings.TrimLeft(x, "0")
+	if x == "" {
+		return "0"
+	}
+	return x
 }
 
 // small fighting programs; fields are kept inside the core
@@ -271,7 +334,7 @@ func cmdCLI(args []string) {
 	w := newShardWriter(*out, *shards)
 	dir, _ := os.MkdirTemp("", "vcli")
 	defer os.RemoveAll(dir)
-	id, fixed, random, single := 0, 0, 0, 0
+	id, fixed, random, single, debug := 0, 0, 0, 0, 0
 	emit := func(f cliFlags, progs []prog) {
 		w.line(runCLI(*bin, dir, f, progs, r, id))
 		w.nextUnit()
@@ -335,6 +398,11 @@ func cmdCLI(args []string) {
 		if r.Intn(8) == 0 {
 			progs = progs[:1]
 			single++
+		}
+		// one invocation in three of those with a determined battle also asks for the debug reporter's transcript (one round)
+		if (f.F != 0 || len(progs) == 1) && r.Intn(3) == 0 {
+			f.D, f.r = true, 1
+			debug++
 		}
 		emit(f, progs)
 	}
@@ -460,7 +528,7 @@ func cmdCLI(args []string) {
 		}
 	}
 	w.close()
-	fmt.Printf(`{"invocations":%d,"fixed":%d,"random":%d,"single":%d}`+"\n", id, fixed, random, single)
+	fmt.Printf(`{"invocations":%d,"fixed":%d,"random":%d,"single":%d,"debug_transcripts":%d}`+"\n", id, fixed, random, single, debug)
 }
 
 func cmdCLIReplay(args []string) {
@@ -475,7 +543,7 @@ func cmdCLIReplay(args []string) {
 	r := rand.New(rand.NewSource(3))
 	for k, e := range readNDJSON(*in) {
 		fm := e["flags"].(map[string]interface{})
-		f := cliFlags{s: jint(fm["s"]), p: jint(fm["p"]), c: jint(fm["c"]), l: jint(fm["l"]), eight: jint(fm["eight"]) == 1, preset: jstr(fm["preset"]), F: jint(fm["F"]), r: jint(fm["r"]), A: jstr(e["ev"]) == "cliA"}
+		f := cliFlags{s: jint(fm["s"]), p: jint(fm["p"]), c: jint(fm["c"]), l: jint(fm["l"]), eight: jint(fm["eight"]) == 1, preset: jstr(fm["preset"]), F: jint(fm["F"]), r: jint(fm["r"]), A: jstr(e["ev"]) == "cliA", D: jstr(e["ev"]) == "cliD"}
 		var progs []prog
 		for _, p := range e["progs"].([]interface{}) {
 			progs = append(progs, jprog(p))
